@@ -85,8 +85,16 @@ fn run(case: &Value) -> Vec<Value> {
     if let Some(e) = inp.get("ushift").and_then(|v| v.as_i64()) {
         unit *= (2.0f64).powi(-(e as i32));
     }
-    let x = to_array2(&xs, p) * unit;
-    let q = to_array2(&qs, p) * unit;
+    // `offs` (default 0): an integer offset per column (up to ~2^31, exact in f64) is added to the records and
+    // the probe rows before they reach the implementation and subtracted from the logged mean and
+    // reconstructions: PCA is shift-invariant apart from the mean, the specification keeps the un-shifted x.
+    let offs: Array1<f64> = match inp.get("offs") {
+        Some(v) => Array1::from(ivec(v).into_iter().map(|o| o as f64).collect::<Vec<_>>()),
+        None => Array1::zeros(p),
+    };
+    let x = (to_array2(&xs, p) + &offs) * unit;
+    let q = (to_array2(&qs, p) + &offs) * unit;
+    let unshift = |a: &Array2<f64>| -> Array2<f64> { a / unit - &offs };
     let mut ev: Vec<Value> = vec![];
 
     // embedding sizes to run (default: all of 1..=p); the complete un-whitened fit always comes first
@@ -137,13 +145,13 @@ fn run(case: &Value) -> Vec<Value> {
         };
         ev.push(json!({
             "ev": "fit", "k": k, "wh": wh, "ok": true, "err": "",
-            "mean": fxv(model.mean().iter(), S / unit),
+            "mean": fxv((model.mean() / unit - &offs).iter(), S),
             "sig": fxv(sig.iter(), S / unit),
             "sigk": sig.iter().map(|v| key64(*v)).collect::<Vec<_>>(),
             "comp": mat(&comp.view(), if wh { SW * unit } else { S }),
             "evar": fxv(evar.iter(), S / (unit * unit)),
             "evr": fxv(evr.iter(), S),
-            "fin": intv(model.mean().iter(), S / unit) && intv(sig.iter(), S / unit) && int2(&comp.view(), if wh { SW * unit } else { S }),
+            "fin": intv((model.mean() / unit - &offs).iter(), S) && intv(sig.iter(), S / unit) && int2(&comp.view(), if wh { SW * unit } else { S }),
             "evfin": intv(evar.iter(), S / (unit * unit)),
             "evrfin": intv(evr.iter(), S),
         }));
@@ -186,8 +194,8 @@ fn run(case: &Value) -> Vec<Value> {
         match iv {
             Ok((rx, rq)) => ev.push(json!({
                 "ev": "inv", "k": k, "wh": wh,
-                "rx": mat(&rx.view(), S / unit), "rq": mat(&rq.view(), S / unit),
-                "fin": int2(&rx.view(), S / unit) && int2(&rq.view(), S / unit),
+                "rx": mat(&unshift(&rx).view(), S), "rq": mat(&unshift(&rq).view(), S),
+                "fin": int2(&unshift(&rx).view(), S) && int2(&unshift(&rq).view(), S),
             })),
             Err(msg) => ev.push(panic_event("inv", &msg)),
         }
